@@ -137,6 +137,40 @@ def loop_template_programs(rnd, n):
     return out
 
 
+def inner_template_pairs(rnd, n):
+    """a template is a STRING whatever it holds: programs that use a small template (one hole only / text and holes) in a
+    type-sensitive way — assigned, added, compared, put into an array or dict, returned from a function, passed to repr — inside a
+    hole of an outer template, inside a function body, a computed value or at top level; paired with the same program in which
+    the inner template is replaced by the quoted literal of its text. Both must evaluate to the same value."""
+    out = []
+    for _ in range(n):
+        q = rnd.choice(["`", "\x1e"])
+        qi = q2(q)
+        v, text = rnd.choice([("7", "7"), ("1.5", "1.5"), ("0", "0"), ("-3", "-3"), ("2+3", "5"), ("'s'", "s"), ("[1]", "[1]"), ("null", "null"), ("true", "1")])
+        form = rnd.randrange(4)
+        if form == 0:
+            inner, lit = f"{qi}{{{v}}}{qi}", f"'{text}'"
+        elif form == 1:
+            inner, lit = f"{qi}{{% 3; {v} %}}{qi}", f"'{text}'"
+        elif form == 2:
+            inner, lit = f"{qi}a{{{v}}}{qi}", f"'a{text}'"
+        else:
+            inner, lit = f"{qi}{{{v}}}{{{v}}}{qi}", f"'{text}{text}'"
+        use = rnd.choice(["x = T; [x]", "T + T", "T == '7'", "[T, T]", "{'k': T}.k", "repr(T)", "T * 2", "T ? 1 : 2", "x = T; x + 1", "func g() { T }; [g()]",
+                          "&cv = T; [cv]", "typeId(T)", "[T][0] + 'z'", "T == 7", "x = T; y = x; [y, x]"])
+        place = rnd.randrange(4)
+        def wrap(body):
+            if place == 0:
+                return f"{q}<{{% {body} %}}>{q}"
+            if place == 1:
+                return f"func outer() {{ {body} }}; outer()"
+            if place == 2:
+                return f"{q}<{{% func h() {{ {body} }}; h() %}}|{{% {body} %}}>{q}"
+            return body
+        out.append((wrap(use.replace("T", inner)), wrap(use.replace("T", lit))))
+    return out
+
+
 def q2(q):
     return "\x1e" if q == "`" else "`"
 
@@ -238,6 +272,20 @@ def run(res, tier, seed):
             violate({"what": "a template inside a loop (break / continue leaving a hole, or a hole holding a loop) does not evaluate to the "
                              "concatenation of its text and hole values", "source_text": src, "source_hex": src.encode().hex(), "expected": exp, "got": got})
     res.cov["loop_template_programs"] = {"programs": len(lt), "disagreements": lt_bad}
+    # a template used in a type-sensitive way equals the quoted literal of its text (real VM on both programs)
+    tp = inner_template_pairs(_random.Random(seed * 37 + 11), 300 if tier == "quick" else 3000)
+    tp_rows = k2cases.go_run([k2cases.mk_input(x, oplimit=200000) for pair in tp for x in pair])
+    tp_bad = 0
+    def _val(row):
+        st = (row.get("steps") or [{}])[-1]
+        return _c02.go_value(st.get("val")) if st.get("ok") else "error: " + str(st.get("err") or st.get("perr") or row.get("fatal") or "?")[:60]
+    for k, (a, b) in enumerate(tp):
+        ga, gb = _val(tp_rows[2 * k]), _val(tp_rows[2 * k + 1])
+        if ga != gb and tp_bad < 3:
+            tp_bad += 1
+            violate({"what": "a template used where its type matters does not behave like the string literal of its text",
+                     "with_template": a, "with_literal": b, "value_with_template": ga, "value_with_literal": gb, "source_hex": a.encode().hex()})
+    res.cov["typed_inner_templates"] = {"pairs": len(tp), "disagreements": tp_bad}
 
     for r in probe + lit + raw:
         if r.get("panic"):
